@@ -57,6 +57,7 @@ type CaseResult struct {
 	ExitWall  time.Time
 	Drops     uint32 // sniffer drops
 	TxDropped int64  // device tx_dropped
+	Undrained int64  // frames the kernel queued on a device that the monitor could not read within a minute
 	Stall     time.Duration
 	SetupErr  string
 }
@@ -177,6 +178,7 @@ func RunCase(sx string, spec *CaseSpec) (res *CaseResult) {
 					return
 				}
 				frame := append([]byte(nil), buf[:n]...)
+				atomic.AddInt64(&d.nRead, 1)
 				atomic.AddInt32(&c.nTx, 1)
 				log.add(Event{Kind: "tx", Dev: d.Name, Data: frame})
 				if spec.OnTx != nil {
@@ -289,7 +291,26 @@ func RunCase(sx string, spec *CaseSpec) (res *CaseResult) {
 	if res.TimedOut {
 		res.Dump = res.Stderr
 	}
-	// drain: frames already queued on the devices
+	// drain: frames already queued on the devices. The kernel's own counter says how many there are: a reader
+	// that is starved for a moment on a loaded machine must not be mistaken for an empty queue.
+	drainDeadline := time.Now().Add(60 * time.Second)
+	for _, d := range w.Devs {
+		if d.f == nil {
+			continue
+		}
+		for {
+			want := d.txPackets()
+			got := atomic.LoadInt64(&d.nRead)
+			if want < 0 || got >= want {
+				break
+			}
+			if time.Now().After(drainDeadline) {
+				res.Undrained += want - got
+				break
+			}
+			time.Sleep(10 * time.Millisecond)
+		}
+	}
 	for last := -1; last != c.TxCount(); {
 		last = c.TxCount()
 		time.Sleep(30 * time.Millisecond)
